@@ -5,6 +5,7 @@ package sym
 
 import (
 	"bufio"
+	"os"
 	"fmt"
 	"io"
 	"math/big"
@@ -54,6 +55,8 @@ type Solver struct {
 
 // SlowLog, if set, is called for queries slower than 2 s.
 var SlowLog func(sec float64, res SatResult, extra []*Term)
+
+var slowDumped bool
 
 var UFs = map[string]*UFSig{}
 var axiomFns []AxiomFn
@@ -269,6 +272,9 @@ func (s *Solver) introduce(t *Term) {
 					s.send(fmt.Sprintf("(assert (= (str.len %s) %d))", n, k))
 				} else {
 					s.send(fmt.Sprintf("(assert (str.in_re %s %s))", n, bytesRe))
+					if k, ok := maxLenOfVar(x.S); ok {
+						s.send(fmt.Sprintf("(assert (<= (str.len %s) %d))", n, k))
+					}
 				}
 			}
 			if x.Sort == SInt {
@@ -336,6 +342,10 @@ func (s *Solver) CheckSat(extra []*Term, wantModel []*Term) (SatResult, map[int]
 	s.Queries++
 	if dt > 2 && SlowLog != nil {
 		SlowLog(dt, res, extra)
+		if s.log != nil && !slowDumped && res == Unknown {
+			slowDumped = true
+			os.WriteFile("/tmp/gosym_slow.smt2", []byte(s.log.String()), 0o644)
+		}
 	}
 	var model map[int]string
 	switch res {
